@@ -93,8 +93,9 @@ Ends(len) == <<0 - 1, 0 - 1, 0 - 1, 0 - 1, 0 - 1, 0, IF len > 1 THEN len - 1 ELS
 Counts == <<0 - 1, 0 - 1, 0, 1, 1, 2, 3, 5, 50, UMax>>
 SimEScan(c) ==
     \E s \in {IF Rnd(1..10) <= 4 THEN Hot ELSE Rnd(Streams)} :
-    \E uk \in {Rnd(1..10) <= 5 \/ ~ReadableBy(log, DefKey[s], s)} :
-    \E k \in {LET ok == {x \in RealKeys : ReadableBy(log, x, s)} IN IF ok = {} THEN DefKey[s] ELSE
+    \* mostly a key whose partition holds the stream; now and then any key (another partition, possibly of the same bucket)
+    \E uk \in {Rnd(1..10) <= 5 \/ (~ReadableBy(log, DefKey[s], s) /\ Rnd(1..5) # 1)} :
+    \E k \in {LET ok == {x \in RealKeys : ReadableBy(log, x, s)} IN IF ok = {} \/ Rnd(1..5) = 1 THEN Rnd(RealKeys) ELSE
                  LET b == {x \in ok : BoundKey(log, Bucket(KeyPart[x]), s) = x} IN IF b # {} /\ Rnd(1..10) <= 7 THEN Rnd(b) ELSE Rnd(ok)} :
     \E len \in {VerOut(CurVer(log, Bucket(KeyPart[IF uk THEN k ELSE DefKey[s]]), s)) + 1} :
     \E st \in {Pick(Starts(len))}, e \in {Pick(Ends(len))}, cnt \in {Pick(Counts)} :
@@ -110,8 +111,8 @@ SimBadRange(c) ==
     \E f \in {Pick(<<"plus_start", "minus_end", "plus_plus", "minus_minus">>)} : ScanBadRange(c, w, s, p, f)
 SimESVer(c) ==
     \E s \in {Rnd(Streams)} :
-    \E uk \in {Rnd(1..10) <= 4 \/ ~ReadableBy(log, DefKey[s], s)} :
-    \E k \in {LET ok == {x \in RealKeys : ReadableBy(log, x, s)} IN IF ok = {} THEN DefKey[s] ELSE Rnd(ok)} :
+    \E uk \in {Rnd(1..10) <= 4 \/ (~ReadableBy(log, DefKey[s], s) /\ Rnd(1..5) # 1)} :
+    \E k \in {LET ok == {x \in RealKeys : ReadableBy(log, x, s)} IN IF ok = {} \/ Rnd(1..5) = 1 THEN Rnd(RealKeys) ELSE Rnd(ok)} :
        ESVer(c, s, uk, k)
 SimEPSeq(c) == \E bk \in {Rnd(1..10) <= 3}, k \in {Rnd(RealKeys)}, p \in {Rnd(Parts)} : EPSeq(c, bk, k, p)
 SimInvalid(c) == \E name \in {Rnd(Invalids)} : Invalid(c, name)
@@ -124,7 +125,8 @@ SimESub(c) ==
        \E streams \in {[i \in 1..cnt |->
                           LET s == ss[i]
                               ok == {x \in RealKeys : SubKeyOk(log, x, s)}
-                          IN [s |-> s, key |-> IF ok = {} \/ (Rnd(1..10) <= 4 /\ SubKeyOk(log, DefKey[s], s)) THEN "-" ELSE Rnd(ok)]]} :
+                          IN [s |-> s, key |-> IF Rnd(1..6) = 1 THEN Rnd(RealKeys)          \* any key: possibly one the stream is not bound to
+                                               ELSE IF ok = {} \/ (Rnd(1..10) <= 4 /\ SubKeyOk(log, DefKey[s], s)) THEN "-" ELSE Rnd(ok)]]} :
        \* random draws are bound here, once: a function constructor nested in a larger value is evaluated lazily by TLC
        \E vs \in {[i \in 1..3 |-> Rnd(0..2)]} :
        \E from \in {IF cnt = 1 THEN Pick(<<[k |-> "none"], [k |-> "all", v |-> 0], [k |-> "all", v |-> 0], [k |-> "all", v |-> 1], [k |-> "all", v |-> Rnd(0..4)]>>)
